@@ -39,10 +39,10 @@ def run_cfg(ctx, name, text, expect_violation=None, workers=8):
         shutil.rmtree(d, ignore_errors=True)
 
 
-def fresh_outcomes(names):
+def fresh_outcomes(names, hashseed="0"):
     """each call alone in its own fresh interpreter (in parallel)"""
     here = os.path.dirname(os.path.dirname(os.path.dirname(os.path.abspath(__file__))))       # /verif/harness
-    env = dict(os.environ, PYTHONPATH=here + ":" + os.environ.get("PV_REPO", "/repo"), PYTHONDONTWRITEBYTECODE="1", MPLBACKEND="Agg", PYTHONHASHSEED="0", OMP_NUM_THREADS="1")
+    env = dict(os.environ, PYTHONPATH=here + ":" + os.environ.get("PV_REPO", "/repo"), PYTHONDONTWRITEBYTECODE="1", MPLBACKEND="Agg", PYTHONHASHSEED=hashseed, OMP_NUM_THREADS="1")
 
     def one(name):
         p = subprocess.run([sys.executable, "-m", "pv.fresh", name, str(SEED0)], env=env, stdout=subprocess.PIPE, stderr=subprocess.PIPE, text=True, timeout=600)
@@ -97,6 +97,18 @@ def run(ctx):
             raise MachineryFailure(f"catalogue entry {e.name} was expected to raise")
         if e.cls != "raising" and not fresh[e.name]["outcome"]["ok"]:
             ctx.violation(f"{e.name}/raised", f"{e.name} raised {fresh[e.name]['outcome']['value']} in a fresh process", dict(kind="fresh", entry=e.name))
+    # ---- a fresh interpreter is a fresh interpreter whatever its string-hash seed: the same call (same NumPy seed for the
+    # randomised ones) must give the same value under another PYTHONHASHSEED (iteration order of sets of labels, ...)
+    hs_names = [e.name for e in entries if fresh[e.name]["outcome"]["ok"] and
+                (not q or e.cls == "random" or e.name.split("/")[0] in ("labels_to_colors_hls", "labels_to_colors_tableau", "overlap", "overlap_coefficient", "jaccard_index",
+                                                                           "graph_clustering", "seqs_to_regex", "pc", "multimerge", "standardize_dataframe"))]
+    other = fresh_outcomes(hs_names, hashseed="4242")
+    for name in hs_names:
+        ctx.case(dict(kind="hash-seed", entry=name), nontrivial=True)
+        if other[name]["outcome"] != fresh[name]["outcome"]:
+            ctx.violation(f"{name}/result_depends_on_interpreter_hash_seed",
+                          f"{name}: alone in a fresh interpreter with PYTHONHASHSEED=4242 gives a different value than with PYTHONHASHSEED=0 (same NumPy seed)",
+                          dict(kind="hashseed", entry=name))
     # ---- R + T: the histories, concatenated in ONE interpreter
     initial = catalogue.default_state()
     cursor = {c: 0 for c in by_class}
